@@ -137,7 +137,7 @@ def header(ver, prev, mr, t, bits, nonce):
 
 def coinbase(height, spk, val=50 * 10 ** 8, extra=b'', outs=None):
     return {'ver': 1,
-            'ins': [{'txid': b'\0' * 32, 'idx': 0xffffffff, 'sig': struct.pack('<I', height) + extra, 'seq': 0xffffffff}],
+            'ins': [{'txid': b'\0' * 32, 'idx': 0xffffffff, 'sig': struct.pack('<I', height & 0xffffffff) + extra, 'seq': 0xffffffff}],
             'outs': outs if outs is not None else [{'val': val, 'spk': spk}], 'lock': 0}
 
 
